@@ -152,7 +152,9 @@ COPY_KW_FUNCS = {"numpy.array": True, "numpy.asarray": False}  # default of copy
 MUTATOR_METHODS = {"append", "extend", "insert", "pop", "remove", "sort", "reverse", "clear", "update", "add",
                    "fill", "resize", "popitem", "discard", "setdefault", "itemset", "put", "partition",
                    "setflags", "byteswap", "__setitem__", "__delitem__", "difference_update",
-                   "intersection_update", "symmetric_difference_update", "appendleft", "popleft", "setfield"}
+                   "intersection_update", "symmetric_difference_update", "appendleft", "popleft", "setfield",
+                   "__iadd__", "__isub__", "__imul__", "__itruediv__", "__ifloordiv__", "__imod__", "__ipow__", "__iand__",
+                   "__ior__", "__ixor__", "__imatmul__"}
 MUTATING_FUNCS = {  # dotted name -> index of the argument written in place
     "numpy.fill_diagonal": 0, "numpy.put": 0, "numpy.place": 0, "numpy.putmask": 0, "numpy.copyto": 0,
     "numpy.put_along_axis": 0, "numpy.random.shuffle": 0, "random.shuffle": 0, "numpy.add.at": 0,
@@ -345,6 +347,7 @@ class FunctionAnalysis:
         self._ev_keys = set()
         self.duck = oa.infer_duck_types(fi.node)
         self.chain: Tuple[str, ...] = ()
+        self._exit_heaps: List[dict] = []
 
     # ------------------------------------------------------------------ entry
     def run(self) -> Summary:
@@ -380,9 +383,28 @@ class FunctionAnalysis:
         if a.kwarg:
             self.env.vars[a.kwarg.arg] = container("dict", AV(frozenset([Origin(f"arg:{a.kwarg.arg}", ("*",))])))
         body = node.body if isinstance(node, (ast.FunctionDef, ast.AsyncFunctionDef)) else [ast.Return(node.body)]
-        self.exec_block(body, self.env)
+        fell_through = self.exec_block(body, self.env)
         self.summary.ret = self.ret
-        self.summary.captures = {k: v for k, v in self.env.heap.items() if k[0].is_arg}
+        # heap at exit = join over every exit (each return and the fall-through); an attribute a path leaves
+        # untouched keeps its entry value
+        exits = list(self._exit_heaps) + ([dict(self.env.heap)] if fell_through else [])
+        if not exits:
+            exits = [dict(self.env.heap)]
+        keys = set()
+        for h in exits:
+            keys |= set(h)
+        caps = {}
+        for k in keys:
+            if not k[0].is_arg:
+                continue
+            acc = None
+            for h in exits:
+                v = h.get(k)
+                if v is None:
+                    v = AV(frozenset([k[0].ext("." + k[1])]))
+                acc = join(acc, v)
+            caps[k] = acc
+        self.summary.captures = caps
         return self.summary
 
     def _mutable_literal(self, d: ast.AST) -> bool:
@@ -439,6 +461,7 @@ class FunctionAnalysis:
                 self.ret = join(self.ret, self.eval(st.value, env))
             else:
                 self.ret = join(self.ret, AV(kind="none"))
+            self._exit_heaps.append(dict(env.heap))
             return False
         elif isinstance(st, ast.Raise):
             if st.exc is not None:
